@@ -329,7 +329,12 @@ func (r *run) EvaluateTemplateText(template string, escaping excellent.Escaping,
 		log(events.NewWarning(w))
 	}
 	if truncate {
-		value = stringsx.TruncateEllipsis(value, r.Session().Engine().Options().MaxTemplateChars)
+		max := r.Session().Engine().Options().MaxTemplateChars
+		if max >= 3 {
+			value = stringsx.TruncateEllipsis(value, max)
+		} else {
+			value = stringsx.Truncate(value, max) // no room for an ellipsis
+		}
 	}
 	return value, err == nil
 }
